@@ -28,6 +28,13 @@ structure XS where
   of the observation is kept in wei: the foundation's balance is `found · 10^10 − fw` -/
   yw : List Int := []
   fw : Int := 0
+  /-- TOKEN confidential pool: per token wallet the outputs it owns, amounts in units of the TOKEN's own commitment unit `tunit`
+  (base units per hidden unit: 10^(decimals−8), what the node derives from the token contract's decimals()); output ids (= key
+  images) are `tokBase + n`: the key-image set of the chain is ONE set for all tokens (utxo/store.go SaveKImages /
+  HaveTxKeyimgAsSpent key the image alone), only the output sequences are per token -/
+  tw : List (List Out) := []
+  tnext : Nat := 0
+  tunit : Int := 10000000000
 deriving Repr, Inhabited
 
 inductive Bk where
@@ -46,6 +53,14 @@ inductive Prim where
   /-- the foundation contract pays payee `k` an award of `wei` out of its own balance (app/app.go AllocAward →
   contract/v1/foundation allocAward: TC_Transfer; the amount is an input, the model does not execute WASM) -/
   | award (k : Nat) (wei : Int)
+  /-- account `i` moves `units` hidden units of the token into the pool: a new output of token wallet `w` -/
+  | tokIn (i w : Nat) (units : Int)
+  /-- the token output `oid` is spent: new outputs `(wallet, units)`, and optionally an account output `(account, units, credit)`
+  where `credit` is what the account's token balance grows by, in 10^10 base units (the honest value is `tok10 units`: the
+  commitment equation of `checkCommitEqual` must use the TOKEN's unit for the account side) -/
+  | tokSpend (oid : Nat) (outs : List (Nat × Int)) (aout : Option (Nat × Int × Int))
+  /-- account `i` pays `u` units of fee; the foundation's credit is booked by the ledger itself (`execTx`: `fees_match`) -/
+  | fee (i : Nat) (u : Int)
 deriving Repr, Inhabited
 
 def getBk (s : St) (x : XS) (tok : Bool) : Bk → Int
@@ -63,6 +78,15 @@ def addBk (s : St) (x : XS) (tok : Bool) (b : Bk) (d : Int) : St × XS :=
   | .x k, false => (s, { x with xb := addAt x.xb k d })
   | .x k, true => (s, { x with xt := addAt x.xt (k + 1) d })
 
+def tokBase : Nat := 1000000000
+
+/-- hidden units of the token in 10^10 base units (the unit the account side of the model is kept in) -/
+def tok10 (x : XS) (units : Int) : Int := units * x.tunit / 10000000000
+
+def addTokOuts (x : XS) (outs : List (Nat × Int)) : XS :=
+  outs.foldl (fun x (w, v) =>
+    { x with tw := x.tw.modify w (· ++ [{ id := tokBase + x.tnext, amount := v, spent := false }]), tnext := x.tnext + 1 }) x
+
 def applyPrim (sx : St × XS) : Prim → St × XS
   | .move tok src dst amt =>
     let v := match amt with | some v => v | none => getBk sx.1 sx.2 tok src
@@ -79,6 +103,15 @@ def applyPrim (sx : St × XS) : Prim → St × XS
     | .x k => (sx.1, { sx.2 with killed := sx.2.killed ++ [k] })
     | _ => sx
   | .award k wei => (sx.1, { sx.2 with yw := addAt sx.2.yw k wei, fw := sx.2.fw + wei })
+  | .tokIn i w units =>
+    let d := tok10 sx.2 units
+    ({ sx.1 with tok := addAt sx.1.tok i (-d), stok := addAt sx.1.stok i (-d) }, addTokOuts sx.2 [(w, units)])
+  | .tokSpend oid outs aout =>
+    let x1 := addTokOuts { sx.2 with tw := markSpent sx.2.tw oid } outs
+    match aout with
+    | some (a, _, credit) => ({ sx.1 with tok := addAt sx.1.tok a credit, stok := addAt sx.1.stok a credit }, x1)
+    | none => (sx.1, x1)
+  | .fee i u => ({ sx.1 with bal := addAt sx.1.bal i (-u), sbal := addAt sx.1.sbal i (-u) }, sx.2)
 
 def applyPrims (sx : St × XS) (ps : List Prim) : St × XS := ps.foldl applyPrim sx
 
@@ -94,6 +127,10 @@ def applyBlock (sx : St × XS) (txs : List (List Prim)) : St × XS := endBlock (
 /-- total native / token value over everything observed -/
 def nativeTotal (s : St) (x : XS) : Int := supply s + x.xb.sum
 def tokenTotal (s : St) (x : XS) : Int := tokSupply s + x.xt.sum
+
+/-- the token pool in hidden units, and the token total over everything observed, pool included (10^10 base units) -/
+def tokPool (x : XS) : Int := (x.tw.map (fun outs => ((outs.filter (!·.spent)).map (·.amount)).sum)).sum
+def tokenTotalX (s : St) (x : XS) : Int := tokenTotal s x + tok10 x (tokPool x)
 
 /-- one commitment unit in wei -/
 def unitWei : Int := 10000000000
